@@ -32,9 +32,29 @@ CLAIMS = {
  'C20': dict(cat='proof', ref='DESIGN.md §6 C20',
    text='jls_statistics_add/combine/compute_f32/compute_f64/var/reset contracts over IEEE-754 doubles: count exact, min/max exact (bound for an arbitrary witness sample + attained), variance accumulator never negative / never decreasing, min<=mean<=max, empty operand is the identity bit for bit, result may overwrite either operand',
    note='magnitudes <= 2^500, counts < 2^52; "equal up to rounding" across groupings is a forward error bound and is NOT decided; jls_statistics_add (1000 s of FP SAT) runs in the thorough tier only'),
+ 'C02': dict(cat='proof', ref='DESIGN.md §6 C02, §9',
+   text='exact part only: jls_dt_buffer_to_f64 proved to convert every sample (arbitrary witness index) of i4/u4 buffers of any length to the double value the format defines (loop contracts); the 8..64-bit and float conversions are generated by a macro and are checked by bounded unwinding (<= 6 samples, every bit pattern); min/max/count handling of the reductions is the subject of the C20 units',
+   note='numeric tolerances (mean precision, std ratio, averaged means) are not decided; summary level selection and strides (jls_core_fsr_statistics, fsr_seek) have no unit; u1 conversion runs in the thorough tier only; bounded units are labelled bounded in the evidence and not counted as proof'),
+ 'C11': dict(cat='proof', ref='DESIGN.md §6 C11, §9',
+   text='index mechanics of the annotation writer: for every decimation factor 2..65536 and every reachable fill state of the index levels, jls_wr_ts_anno / jls_wr_ts_close append entries in order, never exceed a level buffer, write a full level as INDEX immediately followed by its SUMMARY (same signal/track/level/timestamp), push its first entry one level up and re-establish the level invariant; recursion of commit() fully unwound (depth <= 16)',
+   note='quick tier: start states with levels 1..3 allocated (upper levels are created by the code under test), all 15 levels in the thorough tier; jls_core_ts_seek (seek side, finding F10 of the plan) has no unit in this round; file composition assumed'),
+ 'C12': dict(cat='proof', ref='DESIGN.md §6 C12, §9',
+   text='exact part: interp_i64 binary search proved in bounds for every map size up to 2^24 (loop contract: invariant, variant), selecting the segment that contains the argument or the nearest end segment; UTC index writer (jls_wr_ts_utc) as C11',
+   note='anchors reproduced exactly and monotonicity/one-tick accuracy of the double interpolation: anchors in the thorough tier (FP), accuracy not decided; A-TSRANGE: stored ids/timestamps < 2^61 (overflow checks of differences waived outside the witness pair); jls_tmap_add has no unit'),
+ 'C15': dict(cat='proof', ref='DESIGN.md §6 C15, §9',
+   text='wr_data proved: a block is summarised exactly once with the same timestamp/count/contents whether or not its data is stored (only the recorded position differs), the first block of a signal is always stored, data of <= 8 bits is omitted only when is_mem_const holds (proved: true only if every byte equals the replicated first sample), wider data only on request, the signal advances by one full block either way, the omit request is a two-stage shift register',
+   note='jls_core_fsr_summary1 used through a recording contract (its numeric content is C02); reconstruction on read (reconstruct_omitted_chunk) has no unit; verification hook JLS_VERIF_FSR_BUFFER_WORDS=16'),
+ 'C19': dict(cat='proof', ref='DESIGN.md §6 C19, §9',
+   text='the raw read primitives (jls_raw_rd_header, jls_raw_rd_payload) are proved never to call the backend write (vg_nwrites unchanged) for every file content and position; the control shape of jls_rd_open (no mutating call on a closed file; truncate after re-read, END written last, reopened read-only) is a thorough-tier unit',
+   note='U-rd-open-shape did not finish within its time limit in this round (thorough tier); equality of results of first and second open is file composition and is not decided'),
 }
 
 NOT_APPLICABLE = {
+ 'C01': 'not decided in this round: the packing unit (wr_data_inner) and the read unit (jls_core_fsr) are not finished; jls_core_rd_chunk is a thorough-tier unit that does not finish in time; seven genuine defects on this path were found and repaired (F4 F24 F25 F2 F3 F6 F6b) and F23 is recorded as a known finding in known_findings.json',
+ 'C03': 'crash-point enumeration and functional correctness of the repair functions cannot be expressed as contracts (unbounded on-disk list structure, every interrupted history); the decidable parts (link-after-chunk: U-core-upditem precondition, END-last control shape: U-rd-open-shape) are reported under C14/C19',
+ 'C06': 'the schedule quantifier is outside contract reasoning; the sequential premises (marshalling round trip through the real queue and dispatch loop, lockset discipline) are built as bounded units (specs/twr) but exceed the memory limit in this round, so they are not claimed',
+ 'C09': 'the unit for jls_wr_fsr_data (recording contract for wr_data_inner, four loop contracts, per-type variants, specs/wrfsr) does not finish within the time limit on CBMC 6.11 even with the 16-word scratch buffer hook; the defects F2/F3 on this path were found and repaired through native reproduction; not claimed rather than decided by another technique',
+ 'C17': 'no unit: jls_copy is a single 150-line loop over callee results; a forwarding unit needs models of ten callees and was not reached in this round; the plan and the known gaps (omitted blocks not re-created, chunks within 11 bytes below the buffer size skipped, leaks on error paths) are in DESIGN.md',
  'C07': 'liveness/deadlock/flush-close semantics under every schedule: CBMC contracts have no interleaving or fairness semantics; the sequential facts are reported under C06/C10 where built',
 }
 
